@@ -1192,6 +1192,12 @@ impl TcpSession {
         self.metrics.backend_id = Some(backend.borrow().backend_id.clone());
         self.metrics.backend_start();
         self.set_backend_id(backend.borrow().backend_id.clone());
+        // Keep the backend handle: `remove_backend` (dec_connections on close),
+        // the connect-success path (retry_policy.succeed) and the connect-failure
+        // path (retry_policy.fail) all go through `self.backend`. Without it the
+        // per-backend connection count only ever grows and a refusing backend
+        // never enters its back-off.
+        self.backend = Some(backend.clone());
 
         // Postcondition of a successful New connect: the session is wired to
         // its freshly-registered backend token and the status reflects an
